@@ -44,6 +44,11 @@ EnvSets == [
   xposint |-> << E3(Q(1, 1), Q(3, 1), Q(5, 1)), E3(Q(2, 1), Q(1, 2), Q(-1, 1)), E3(Q(3, 1), Q(2, 1), Q(1, 3)), E3(Q(9, 1), Q(4, 1), Q(2, 1)) >>,
   xnonzero |-> << E3(Q(2, 1), Q(3, 1), Q(5, 1)), E3(Q(-3, 1), Q(1, 2), Q(-1, 1)), E3(G(1, 1, 2, 1), Q(4, 1), Q(2, 1)), E3(G(0, 1, -1, 1), Q(2, 1), Q(1, 1)) >>,
   xrat |-> << E3(Q(2, 3), Q(3, 1), Q(5, 1)), E3(Q(-3, 4), Q(1, 2), Q(-1, 1)), E3(Q(0, 1), Q(4, 1), Q(2, 1)), E3(Q(-5, 1), Q(2, 1), Q(1, 1)) >>,
+  \* two weakly signed symbols (boundary points included)
+  xynonneg |-> << E3(Q(0, 1), Q(0, 1), Q(0, 1)), E3(Q(0, 1), Q(2, 1), Q(1, 1)), E3(Q(3, 1), Q(0, 1), Q(0, 1)), E3(Q(1, 2), Q(4, 1), Q(2, 1)) >>,
+  xynonpos |-> << E3(Q(0, 1), Q(0, 1), Q(0, 1)), E3(Q(0, 1), Q(-2, 1), Q(-1, 1)), E3(Q(-3, 1), Q(0, 1), Q(0, 1)), E3(Q(-1, 2), Q(-4, 1), Q(-2, 1)) >>,
+  xnonnegynonpos |-> << E3(Q(0, 1), Q(0, 1), Q(0, 1)), E3(Q(0, 1), Q(-2, 1), Q(1, 1)), E3(Q(3, 1), Q(0, 1), Q(0, 1)), E3(Q(1, 2), Q(-4, 1), Q(2, 1)) >>,
+  xyzero |-> << E3(Q(0, 1), Q(0, 1), Q(0, 1)) >>,
   \* no assumption on x: also points off the real axis
   xany |-> << E3(Q(2, 1), Q(3, 1), Q(5, 1)), E3(Q(-3, 1), Q(1, 2), Q(-1, 1)), E3(G(1, 1, 2, 1), Q(4, 1), Q(2, 1)),
               E3(G(0, 1, -1, 1), Q(2, 1), Q(1, 1)), E3(G(-1, 2, 3, 2), Q(1, 3), Q(-2, 1)), E3(Q(0, 1), Q(2, 1), Q(3, 1)) >>,
